@@ -182,17 +182,26 @@ Section Cancel.
     eapply k_tr; [exact L12|apply k_inv_update].
   Qed.
 
-  Lemma k_kubectl_apply s l : kstep s (fst (kubectl_apply sc s l)).
+  Lemma k_ssa_patch l s n : kstep s (fst (ssa_patch sc s l n)).
   Proof.
-    unfold kubectl_apply. cbv zeta. destruct (ssa_mode sc).
-    - destruct (faulted sc _); cbn [fst]; [ks|].
-      destruct (find_obj _ _); destruct (match o_dry (sc_opts sc) with DServer => true | _ => false end); cbn [fst]; ks.
-    - pose proof (k_get_obj s (l_id l)) as G. destruct (get_obj sc s (l_id l)) as [s1 g]. cbn [fst] in G.
-      destruct g; cbn [fst]; try exact G.
-      + destruct (is_dry _); cbn [fst]; [exact G|]. destruct (faulted sc _); cbn [fst]; ks.
-      + destruct (negb (patch_needed c l)); cbn [fst]; [exact G|].
-        destruct (is_dry _); cbn [fst]; [exact G|]. destruct (faulted sc _); cbn [fst]; ks.
+    unfold ssa_patch. cbv zeta.
+    destruct (faulted sc (FStream _ _)); cbn [fst]; [ks|].
+    destruct (faulted sc (FApply _)); cbn [fst]; [ks|].
+    destruct (find_obj _ _); destruct (match o_dry (sc_opts sc) with DServer => true | _ => false end); cbn [fst]; ks.
   Qed.
+
+  Lemma k_csa_apply l s : kstep s (fst (csa_apply sc s l)).
+  Proof.
+    unfold csa_apply. cbv zeta.
+    pose proof (k_get_obj s (l_id l)) as G. destruct (get_obj sc s (l_id l)) as [s1 g]. cbn [fst] in G.
+    destruct g; cbn [fst]; try exact G.
+    + destruct (is_dry _); cbn [fst]; [exact G|]. destruct (faulted sc _); cbn [fst]; ks.
+    + destruct (negb (patch_needed c l)); cbn [fst]; [exact G|].
+      destruct (is_dry _); cbn [fst]; [exact G|]. destruct (faulted sc _); cbn [fst]; ks.
+  Qed.
+
+  Lemma k_kubectl_apply s l : kstep s (fst (kubectl_apply sc s l)).
+  Proof. exact (kubectl_apply_step sc l (fun a b => kstep a b) k_tr (k_ssa_patch l) (k_csa_apply l) s). Qed.
 
   Lemma k_policy_apply_filter s j : kstep s (fst (policy_apply_filter sc s j)).
   Proof.
